@@ -5,7 +5,7 @@ backwards), constant folding and pruning of branches whose condition folds to a 
 This is trace partitioning for the dataflow rules; there is no solver and nothing is executed:
 values are origin terms (see prog.py) simplified syntactically.
 """
-from .prog import (cname, op_const, op_place, place_key, _freeze_const, _simplify, _mk_field, int_range)
+from .prog import (cname, op_const, op_place, place_key, _freeze_const, _simplify, _mk_field, int_range, fold, _cint, _wrap)
 
 
 class TooManyPaths(Exception):
@@ -117,7 +117,7 @@ class Path:
     def origin_place(self, place, pos, sidx=None, depth=0):
         if sidx is None:
             sidx = len(self.body.blocks[self.blocks[pos]]["stmts"])
-        if depth > 60:
+        if depth > 200:
             return ("unknown", "depth")
         # memory-like places (through deref or field of a local that is stored to piecewise):
         if place["p"]:
@@ -165,7 +165,7 @@ class Path:
             return fold(self.origin_rvalue(s["rv"], d[1], d[2], depth))
         t = body.blocks[self.blocks[d[1]]]["term"]
         args = tuple(self.origin_op(a, d[1], None, depth) for a in t["args"])
-        return ("call", cname(t["func"]), args, ("site", self.blocks[d[1]]))
+        return fold(("call", cname(t["func"]), args, ("site", self.blocks[d[1]])))
 
     def origin_rvalue(self, rv, pos, sidx, depth):
         k = rv["k"]
@@ -214,71 +214,6 @@ class Path:
             return None
         pos = len(self.blocks) - 1
         return self.origin_place({"l": 0, "p": []}, pos, None)
-
-
-# --------------------------------------------------------------------------------------
-# constant folding on origin terms
-# --------------------------------------------------------------------------------------
-
-def _cint(t):
-    if isinstance(t, tuple) and t[0] == "const" and t[1][0] == "int":
-        return t[1][1]
-    return None
-
-
-def _wrap(v, ty):
-    r = int_range(ty)
-    if r is None:
-        return v
-    lo, hi = r
-    span = hi - lo + 1
-    return ((v - lo) % span) + lo
-
-
-def fold(t):
-    if not isinstance(t, tuple):
-        return t
-    k = t[0]
-    if k == "bin":
-        a, b = _cint(t[2]), _cint(t[3])
-        op = t[1]
-        ty = t[4]
-        if a is not None and b is not None:
-            if op in ("Eq", "Ne", "Lt", "Le", "Gt", "Ge"):
-                r = {"Eq": a == b, "Ne": a != b, "Lt": a < b, "Le": a <= b, "Gt": a > b, "Ge": a >= b}[op]
-                return ("const", ("int", int(r), "bool"))
-            if op in ("BitOr", "BitAnd", "BitXor") and ty != "bool":
-                r = {"BitOr": a | b, "BitAnd": a & b, "BitXor": a ^ b}[op]
-                return ("const", ("int", _wrap(r, ty), ty))
-            if op in ("BitOr", "BitAnd", "BitXor") and ty == "bool":
-                r = {"BitOr": a | b, "BitAnd": a & b, "BitXor": a ^ b}[op]
-                return ("const", ("int", r & 1, "bool"))
-            if op in ("Add", "Sub", "Mul") and int_range(ty):
-                r = {"Add": a + b, "Sub": a - b, "Mul": a * b}[op]
-                lo, hi = int_range(ty)
-                if lo <= r <= hi:
-                    return ("const", ("int", r, ty))
-            if op in ("Shl",) and int_range(ty) and 0 <= b < 128:
-                return ("const", ("int", _wrap(a << b, ty), ty))
-            if op in ("Shr",) and int_range(ty) and 0 <= b < 128:
-                return ("const", ("int", a >> b, ty))
-            if op == "Div" and b != 0 and a >= 0 and b > 0:
-                return ("const", ("int", a // b, ty))
-            if op == "Rem" and b != 0 and a >= 0 and b > 0:
-                return ("const", ("int", a % b, ty))
-    elif k == "un":
-        a = _cint(t[2])
-        if a is not None and t[1] == "Not" and t[2][1][2] == "bool":
-            return ("const", ("int", 1 - a, "bool"))
-    elif k == "cast":
-        a = _cint(t[1])
-        if a is not None and t[3] == "IntToInt" and int_range(t[2]):
-            return ("const", ("int", _wrap(a, t[2]), t[2]))
-    elif k == "discr":
-        inner = t[1]
-        if isinstance(inner, tuple) and inner[0] == "agg" and inner[1] == "adt":
-            return ("discr_of_variant", inner[2], inner[3])
-    return t
 
 
 # --------------------------------------------------------------------------------------
